@@ -61,6 +61,34 @@ MUT = """    let v: {fty} = {val};
 """
 
 
+BOUND_FORMS = """
+// bound(..) arguments on Deref / DerefMut: a type entry means `Type: <the trait being generated>`, a per-trait bound without `..` keeps the shared bound out,
+// and both are independent of what is derived alongside. Observed as compile-time constants (which instantiations implement the trait).
+#[derive_ex(Deref, DerefMut(bound(A)))]
+pub struct T1<A>(pub A);
+#[derive_ex(Deref(bound(A)))]
+pub struct T2<A> { pub v: A }
+#[derive_ex(Clone, Deref(bound()), bound(A: Clone))]
+pub struct T3<A>(pub A);
+#[derive_ex(Deref, DerefMut, bound(A))]
+pub struct T4<A>(pub A);
+pub struct NoClone(pub u8);
+
+pub fn check<S: Src>(_s: &mut S) {
+    // T1: Deref for every A; DerefMut exactly when A: DerefMut
+    assert!(<IsDeref<T1<u8>>>::V && <IsDeref<T1<&'static u8>>>::V, "deref-unbounded");
+    assert!(<IsDerefMut<T1<Box<u8>>>>::V && !<IsDerefMut<T1<&'static u8>>>::V && !<IsDerefMut<T1<u8>>>::V, "type-entry-means-the-trait-being-generated");
+    // T2: Deref exactly when A: Deref
+    assert!(<IsDeref<T2<&'static u8>>>::V && !<IsDeref<T2<u8>>>::V, "type-entry-on-deref");
+    // T3: the shared bound is Clone's business: Deref(bound()) stops before it
+    assert!(<IsDeref<T3<NoClone>>>::V && !<IsClone<T3<NoClone>>>::V && <IsClone<T3<u8>>>::V, "per-trait-bound-keeps-shared-bound-out");
+    // T4: a shared type entry means Deref for Deref and DerefMut for DerefMut
+    assert!(<IsDeref<T4<&'static u8>>>::V && !<IsDerefMut<T4<&'static u8>>>::V && <IsDerefMut<T4<Box<u8>>>>::V && !<IsDeref<T4<u8>>>::V, "shared-type-entry");
+}
+
+"""
+
+
 def run(tier):
     t0 = time.time()
     progs = []
@@ -85,6 +113,9 @@ def run(tier):
                 src += CHECK.format(ty=ty, mk=mk, fty=fty, acc=acc, mut_part=mp)
                 src += e1.harness(unwind=8)
                 progs.append(kani_runner.Program(name, src, "%s|%s|%s" % (sid, la, entry), desc, nontrivial=True))
+    name = "p%05d" % len(progs)
+    progs.append(kani_runner.Program(name, e1.HEADER.format(pid=PID, name=name, desc="bound(..) forms on Deref / DerefMut") + BOUND_FORMS + e1.harness(), "bound-forms|Deref+DerefMut",
+                                     "bound(..) forms on Deref / DerefMut", nontrivial=True))
     out = common.Outcome(PID)
     extra = e3_extras.summary(e3_extras.safe(e3_extras.c18_arity, out))
     return e1.finish(
